@@ -4,9 +4,10 @@ module so that the generic theorems of Props/C09 still check on a tree where one
 -/
 import JanetModel.Gen.MarshCode
 import JanetModel.Gen.Marsh
+import JanetModel.Marsh.Abstract
 
 namespace JanetModel.Marsh.CodeObligations
-open JanetModel.Gen.MarshCode JanetModel.Gen.Marsh
+open JanetModel.Gen.MarshCode JanetModel.Gen.Marsh JanetModel.Marsh
 
 /-- The recursion-depth discipline written into `marshalC` / `marshalDef` / `marshalEnv` and `unmarshalC` / `unmarshalDef` /
 `unmarshalEnvWith` (who gets `fuel` and who gets `fuel - 1`) is the one of the current marsh.c. -/
@@ -42,5 +43,13 @@ theorem flag_bits :
       fun b => (List.range 31).any fun k => b = 2 ^ k) = true ∧
     [fdHasSymbolMap, fdHasName, fdHasSource, fdHasDefs, fdHasEnvs, fdHasSourceMap, fdHasCloBitset].Nodup ∧
     lb_real ≤ lb_funcdef_ref ∧ lb_real ≤ lb_funcenv_ref ∧ lb_funcdef_ref ≠ lb_integer ∧ lb_funcenv_ref ≠ lb_integer := by decide
+
+/-- The hook programs of Abstract.lean make the context calls that the current `int64_marshal` / `int64_unmarshal`
+(inttypes.c) and `janet_chanat_marshal` / `janet_chanat_unmarshal` (ev.c) make, in the same order (a loop counts once; the
+channel's `janet_unmarshal_abstract` / `_threaded` are the two arms of one branch). -/
+theorem hook_calls_match_model :
+    hookCalls (int64Items 0) = int64MarshalCalls ∧ progCalls int64Prog = int64UnmarshalCalls ∧
+    hookCalls (chanItems 0 0 0 [.nil]) = squeeze chanMarshalCalls ∧
+    progCalls chanProg = chanUnmarshalCalls.filter (· ≠ "abstract_threaded") := by decide
 
 end JanetModel.Marsh.CodeObligations
